@@ -7,6 +7,7 @@ from ..cfgutil import expr_key
 from ..tables import base_name
 from .. import pp
 
+RETRY_INLINED = True
 LEVEL = 'proof'
 
 PAIR_EXTERNALS = {'strlen': 'STRLEN', 'wcslen': 'STRLEN', 'strncmp': 'STRNCMP', 'wcsncmp': 'STRNCMP'}
